@@ -138,6 +138,18 @@ def gen(seed, run, sub="pipe", tier="quick"):
                                        "error:20", "ok N12 P15 B3", "Grbl 1.1h ['$' for help]"]))
         return {"lane": "c18", "sub": sub, "reports": lines, "readings": readings, "draws": {}, "cfg": {},
                 "sched": {"seed": "%s/%s/c18d" % (seed, run), "policy": "random", "p": 0.0, "pp": 0.0}}
+    if sub == "duo":
+        # two writer objects alive at the same time, each fed by its own reader thread
+        out = {"lane": "c18", "sub": sub, "draws": {}, "cfg": {}, "readings": {}, "max_steps": 200000}
+        for name in ("reportsA", "reportsB"):
+            lines = []
+            for _ in range(r.choice([3, 8, 20])):
+                _, text, vals, _f = gen_report(r)
+                lines.append(text)
+                out["readings"][text.strip()] = vals
+            out[name] = lines
+        out["sched"] = common.gen_sched(r, "%s/%s/c18duo" % (seed, run), est_steps=3000, victims=("A", "B"))
+        return out
     # pipe: a C16 clean-lane session whose statements are queries answered by generated reports
     n = r.choice([1, 2, 3, 4, 6, 10])
     transport = r.choice(["serial", "serial", "socket"])
@@ -157,6 +169,7 @@ def gen(seed, run, sub="pipe", tier="quick"):
         else:
             stmts.append("G1 X%d F%d" % (i, 100 + i))
     faults = []
+    slow = {}
     for _ in range(r.choice([0, 0, 1, 2, 4])):
         _, text, vals, _f = gen_report(r, allow_ok=False)
         if pool is not None and r.random() < 0.6:
@@ -166,6 +179,17 @@ def gen(seed, run, sub="pipe", tier="quick"):
         readings[text] = vals
         faults.append({"k": "unsol", "rx": r.randrange(0, n + 4), "dt": round(r.choice([0, 0.001, 0.05, 0.3]), 6),
                        "text": text})
+    if n >= 2 and r.random() < 0.03:
+        # temperature auto-reports for minutes on end between two statements
+        _, bt, bv, _f = gen_report(r, allow_ok=False)
+        _, ht, hv, _f = gen_report(r, allow_ok=False)       # one report of another kind leads the burst
+        readings[bt] = bv
+        readings[ht] = hv
+        j = r.randrange(0, n - 1)
+        nb = r.choice([260, 300, 520])
+        # the whole burst arrives while statement j is still being executed by the device
+        faults.append({"k": "burst", "rx": 3 + j, "dt": 0.01, "text": bt, "head": ht, "n": nb})
+        slow[str(j)] = round(nb * 0.002 + 1.0, 3)
     draws = common.gen_draws(r)
     if transport == "socket":
         fr = r.choice([0, 1, 3, 7, 64])
@@ -187,7 +211,7 @@ def gen(seed, run, sub="pipe", tier="quick"):
                 "drop_while_booting": False, "resend_with_ok": True,
                 "dev_eol": r.choice(["\n", "\n", "\r\n"])},
         "stmts": stmts, "replies": replies, "faults": faults, "ops": ops, "draws": draws, "eol": "\n",
-        "readings": readings, "max_steps": 60000,
+        "readings": readings, "max_steps": 150000, "slow": slow,
         "sched": common.gen_sched(r, "%s/%s/c18" % (seed, run), est_steps=300 + 250 * n),
     }
 
@@ -197,7 +221,54 @@ def execute(scn, guide=None, keep=False):
         s2 = dict(scn, sub="clean")
         res = c16.execute(s2, guide, keep, observer=Observer(scn))
         return res
+    if scn["sub"] == "duo":
+        return execute_duo(scn, guide, keep)
     return execute_direct(scn, guide, keep)
+
+
+def execute_duo(scn, guide, keep):
+    k, env = common.build(scn, guide)
+    m = shims.repo_modules()
+    viol = []
+    done = {"A": False, "B": False}
+
+    def feeder(tag, lines):
+        def run():
+            w = m["pw"].PrintrunWriter("serial", "localhost", "/dev/sim" + tag, 115200)
+            ref = {L: None for L in ALPHABET}
+            for idx, line in enumerate(lines):
+                w._on_device_message(line)
+                ref = apply_report(ref, scn["readings"].get(line.strip()) or {})
+                snap = snapshot(w, k)
+                k.ev("fed", tag, idx)
+                diff = {L: [snap[L], ref[L]] for L in ALPHABET if not _same(snap[L], ref[L])}
+                if diff:
+                    viol.append({"cls": "reading-mismatch", "detail": {"writer": tag, "line": line, "index": idx,
+                                                                       "got_vs_want": diff}})
+                    break
+            done[tag] = True
+        return run
+
+    def main():
+        ta = k.Thread(target=feeder("A", scn["reportsA"]), name="A reader")
+        tb = k.Thread(target=feeder("B", scn["reportsB"]), name="B reader")
+        ta.start()
+        tb.start()
+        ta.join()
+        tb.join()
+
+    k.run(main)
+    if k.abort_reason or not all(done.values()):
+        if not viol:
+            viol.append({"cls": "liveness" if k.abort_reason != "wall-timeout" else "harness",
+                         "detail": {"reason": k.abort_reason or "incomplete"}})
+    for t in k.threads:
+        if t.exc is not None and not isinstance(t.exc, SimAbort):
+            viol.append({"cls": "thread-died", "detail": {"exc": "%s: %s" % (type(t.exc).__name__, str(t.exc)[:80])}})
+    extra = {"info": {"lines_fed": len(scn["reportsA"]) + len(scn["reportsB"])}}
+    if keep:
+        extra["log"] = k.log
+    return common.finish(k, scn, viol, extra)
 
 
 def execute_direct(scn, guide, keep):
@@ -261,7 +332,8 @@ class C18Lane(Lane):
     }
 
     def subs(self, tier):
-        return [("pipe", 1200), ("direct", 1500)] if tier == "quick" else [("pipe", 40000), ("direct", 60000)]
+        return ([("pipe", 1200), ("direct", 1500), ("duo", 400)] if tier == "quick"
+                else [("pipe", 40000), ("direct", 60000), ("duo", 12000)])
 
     def gen(self, seed, run, sub, tier):
         return gen(seed, run, sub, tier)
@@ -281,6 +353,9 @@ class C18Lane(Lane):
     def sample(self, scn, res):
         if scn["sub"] == "direct":
             return {"sub": "direct", "reports": scn["reports"][:5], "violations": res["viol"][:2]}
+        if scn["sub"] == "duo":
+            return {"sub": "duo", "reportsA": scn["reportsA"][:3], "reportsB": scn["reportsB"][:3],
+                    "sched": scn["sched"], "violations": res["viol"][:2]}
         return {"sub": "pipe", "stmts": scn["stmts"][:4], "replies": dict(list(scn["replies"].items())[:3]),
                 "faults": scn["faults"][:2], "transport": scn["transport"], "sched": scn["sched"],
                 "outcome": res["stats"], "violations": res["viol"][:2]}
